@@ -49,6 +49,8 @@ def model_class(i):
 
 def make_model(i, kind, n, solved):
     span, labels = spans.make(kind, n)
+    if kind.startswith('pd_'):
+        span = span.rename('when')  # a pandas span carries metadata (its name, a frequency): the export is indexed by the span itself
     m = model_class(i)(span)
     for j, name in enumerate(m.names):
         m[name] = [0.25 * (j + 1) + k for k in range(n)]
@@ -60,6 +62,7 @@ def make_model(i, kind, n, solved):
     if m.names and not m.names[0].startswith('_'):
         # an internal variable whose name is '_' + the name of a model variable (its storage key differs: '__<name>')
         m.add_variable('_' + m.names[0], [k % 2 == 1 for k in range(n)], dtype=bool)
+    m.add_variable('Zlast', [0.5 * k for k in range(n)], dtype=float)  # an ordinary variable AFTER the internal ones: model order is kept
     if solved and n > type(m).LAGS + type(m).LEADS:
         m.solve(max_iter=5, failures='ignore', errors='ignore')
     return m, labels
@@ -80,6 +83,12 @@ def check_table(df, m, labels, status, iterations, include_internal, tag):
     if not same_index(df, labels):
         out.append(('%s:index' % tag, [repr(x) for x in labels], [repr(x) for x in df.index], 'index is not the span'))
         return out
+    span = m.span
+    if isinstance(span, pd.Index):
+        meta = lambda ix: (type(ix).__name__, ix.name, str(getattr(ix, 'freq', None)), str(ix.dtype))
+        if meta(df.index) != meta(span) or not df.index.equals(span):
+            out.append(('%s:index-metadata' % tag, meta(span), meta(df.index), 'a pandas span does not index the table as it is (type, name, frequency, dtype)'))
+            return out
     for c in want_cols:
         a = vars(m)['_' + c]  # the stored series itself (independent of the item-access path the export uses)
         col = df[c]
